@@ -121,6 +121,9 @@ func VerifC04CrashBatch(h *verifh.H) {
 		for _, v := range batch {
 			ents = append(ents, mkEntity(v))
 		}
+		if h.Param("commitPoints", 0) == 1 {
+			h.CrashAtCommits()
+		}
 		h.CrashWindowStart()
 		h.Assert(ds.StoreEntities(ents) == nil, "batch accepted")
 	}
@@ -171,6 +174,9 @@ func VerifC04CrashTxn(h *verifh.H) {
 			// the store handle JS transforms write through
 			st = NewContextualStore(hub.Store)
 		}
+		if h.Param("commitPoints", 0) == 1 {
+			h.CrashAtCommits()
+		}
 		h.CrashWindowStart()
 		h.Assert(st.ExecuteTransaction(txn) == nil, "transaction accepted")
 	}
@@ -202,6 +208,9 @@ func VerifC04CrashCreate(h *verifh.H) {
 			d, err := hub.Dsm.CreateDataset("first", nil)
 			h.Assert(err == nil, "create first")
 			h.Assert(d.StoreEntities([]*Entity{mkEntity(fv)}) == nil, "write first")
+		}
+		if h.Param("commitPoints", 0) == 1 {
+			h.CrashAtCommits()
 		}
 		h.CrashWindowStart()
 		_, err := hub.Dsm.CreateDataset("people", nil)
